@@ -378,3 +378,458 @@ Example C16_session_mid_fdt_join_by_theorem : forall once,
   session_delivered (tx_cfg once false) (tx_inst false None) ex_content 7 r c.
 Proof. exact mx_midjoin_by_theorem. Qed.
 (* ===== end block: C02MultiFdt ===== *)
+
+From FluteV Require Import Proofs.C09Full Proofs.C02MultiObj Proofs.C16Multi.
+(* ===== block: C16Multi ===== *)
+(* ---------------- RaptorQ (FEC 6) and Raptor (FEC 1): Proofs/C16Multi.v ----------------
+   The late-join theorems for the [fq] family of Properties/C02.v, under the SAME trusted hypotheses on the decoder oracle
+   as C02_fq_recoverable_delivers (fq_oracle_sound / fq_oracle_complete, unfolded in C02_fq_oracle_statements) and the
+   same premises (fq_scheme_ok, fq_blocks_ok, fq_sized_pkt: RaptorQ payloads of exactly E bytes).  The codes are not
+   modelled ([enc s i] = whatever the sender's encoder produces for (sbn, esi), universally quantified), so a cycle is a
+   list [cyc] of genuine packets of the object WITHOUT close-object flag that holds every SOURCE symbol of every block
+   (fq_recoverable oti L cyc = true); repair symbols, duplicates, any order are allowed anywhere in it.  A receiver that
+   has the FDT entry and joins at ANY packet offset j gets the rest of the cycle and one whole further cycle: Completed,
+   writer got open, writes = content, one complete.  (Recovery from FEWER source symbols with the help of repair symbols
+   is entirely the decoder's and is not stated, as in C02.)  No new hypothesis was needed.
+   Not covered: the sender side (the wire image of the model's RaptorQ/Raptor encoder, as wire_pkts_rs for Reed-Solomon). *)
+Theorem C16_late_join_delivers_fq : forall E oti content enc toi max fid files inst md5,
+  let L := lenN_ content in
+  fq_scheme_ok oti L -> fq_blocks_ok oti L -> fdt_entry_for files inst toi oti L md5 ->
+  writer_accepts E toi -> writes_succeed E toi -> md5_good E content md5 ->
+  fq_oracle_sound E oti content enc toi -> fq_oracle_complete E oti content enc toi ->
+  L <= max -> nb_blocks_of oti L <= 4097 ->
+  forall cyc,
+  Forall (fun q => fq_genuine_pkt oti content enc q = true) cyc ->
+  Forall (fun q => fq_sized_pkt oti q = true) cyc ->
+  Forall (fun q => a_close_obj q = false) cyc ->
+  fq_recoverable oti L cyc = true ->
+  forall j : nat, delivered E fid files inst toi max content (skipn j cyc ++ cyc).
+Proof. exact fq_late_join_delivered. Qed.
+Print Assumptions C16_late_join_delivers_fq.
+
+(* ANY list of genuine, flag-free packets (source or repair) that holds every source symbol *)
+Theorem C16_any_superset_of_a_cycle_delivers_fq : forall E oti content enc toi max fid files inst md5,
+  let L := lenN_ content in
+  fq_scheme_ok oti L -> fq_blocks_ok oti L -> fdt_entry_for files inst toi oti L md5 ->
+  writer_accepts E toi -> writes_succeed E toi -> md5_good E content md5 ->
+  fq_oracle_sound E oti content enc toi -> fq_oracle_complete E oti content enc toi ->
+  L <= max -> nb_blocks_of oti L <= 4097 ->
+  forall l,
+  Forall (fun q => fq_genuine_pkt oti content enc q = true) l ->
+  Forall (fun q => fq_sized_pkt oti q = true) l ->
+  Forall (fun q => a_close_obj q = false) l ->
+  fq_recoverable oti L l = true ->
+  delivered E fid files inst toi max content l.
+Proof. exact fq_superset_delivered. Qed.
+Print Assumptions C16_any_superset_of_a_cycle_delivers_fq.
+
+(* what is left of earlier cycles (genuine, flag-free), then a list with every source symbol that may carry the
+   close-object flag as a LAST transfer does (fq_close_flag_ok: only once the object is recoverable with it) *)
+Theorem C16_late_join_then_last_transfer_fq : forall E oti content enc toi max fid files inst md5,
+  let L := lenN_ content in
+  fq_scheme_ok oti L -> fq_blocks_ok oti L -> fdt_entry_for files inst toi oti L md5 ->
+  writer_accepts E toi -> writes_succeed E toi -> md5_good E content md5 ->
+  fq_oracle_sound E oti content enc toi -> fq_oracle_complete E oti content enc toi ->
+  L <= max -> nb_blocks_of oti L <= 4097 ->
+  forall pre cyc,
+  Forall (fun q => fq_genuine_pkt oti content enc q = true) (pre ++ cyc) ->
+  Forall (fun q => fq_sized_pkt oti q = true) (pre ++ cyc) ->
+  Forall (fun q => a_close_obj q = false) pre ->
+  fq_close_flag_ok oti L cyc ->
+  fq_recoverable oti L cyc = true ->
+  delivered E fid files inst toi max content (pre ++ cyc).
+Proof. exact fq_prefix_then_cycle_delivered. Qed.
+Print Assumptions C16_late_join_then_last_transfer_fq.
+
+(* non-vacuity, toy systematic decoder sys_dec (C02_fq_oracle_hypotheses_satisfiable): the RaptorQ cycle
+   (1,0) (0,5: repair) (0,1) (1,0) (0,0) of the 5-byte object: every join offset delivered, by computation and by the
+   theorem; the suffix from offset 3 alone is not *)
+Example C16_example_late_join_fq :
+  map (rs_pid exq_oti) exq_pkts = [(1, 0); (0, 5); (0, 1); (1, 0); (0, 0)]
+  /\ forallb (fun j => match summary 7 (receive env_sys 1 exq_files None 7 1000 (skipn j exq_pkts ++ exq_pkts)) with
+                       | (Completed, [CallOpen true; CallWrite [1; 2; 3; 4] true; CallWrite [5] true; CallComplete]) => true
+                       | _ => false end) [0; 1; 2; 3; 4; 5; 6]%nat = true
+  /\ summary 7 (receive env_sys 1 exq_files None 7 1000 (skipn 3 exq_pkts)) = (Receiving, [CallOpen true]).
+Proof. vm_compute. repeat split. Qed.
+
+Example C16_example_fq_by_theorem : forall j : nat,
+  delivered env_sys 1 exq_files None 7 1000 exr_content (skipn j exq_pkts ++ exq_pkts).
+Proof. exact exq_late_join_by_theorem. Qed.
+
+(* ---------------- session level, RaptorQ / Raptor (setting of C02_fq_session_fdt_late_delivers) ----------------
+   The receiver joins at ANY packet offset j of a carousel cycle cyc1 of the object whose packets carry EXT_FTI = (oti, L),
+   no EXT_CENC, no close-object flag (inband: they are decoded - the oracle is consulted - without writer), then the
+   FDT packet, then one whole further cycle cyc2 that holds every source symbol (carousel, or last transfer with the
+   close-object flag where fq_close_flag_ok allows it; with or without EXT_FTI).  Conclusion: session_delivered. *)
+Theorem C16_session_late_join_fq : forall E parse_fdt cfg oti content enc toi md5 now pf id foti d inst cyc1 cyc2 (j : nat),
+  let L := lenN_ content in
+  fq_scheme_ok oti L -> fq_blocks_ok oti L -> toi <> 0 ->
+  fdt_pkt_ok pf id foti d -> parse_fdt d = Some inst -> fdt_live cfg inst pf now ->
+  fdt_entry_for (fi_files inst) (fi_oti inst) toi oti L md5 ->
+  writer_accepts E toi -> writes_succeed E toi -> md5_good E content md5 ->
+  fq_oracle_sound E oti content enc toi -> fq_oracle_complete E oti content enc toi ->
+  L <= cf_max_cache cfg -> nb_blocks_of oti L <= 4097 ->
+  Forall (fun p => a_toi p = toi) (cyc1 ++ cyc2) ->
+  Forall (fun p => fq_genuine_pkt oti content enc p = true) (cyc1 ++ cyc2) ->
+  Forall (fun p => fq_sized_pkt oti p = true) (cyc1 ++ cyc2) ->
+  Forall (inband oti L) cyc1 ->
+  fq_close_flag_ok oti L cyc2 ->
+  fq_recoverable oti L cyc2 = true ->
+  let '(_, r, c) := recv_run E parse_fdt cfg recv0 (map (fun p => RvPush p now) (skipn j cyc1 ++ pf :: cyc2)) ctx0 in
+  session_delivered cfg inst content toi r c.
+Proof. exact fq_session_late_join. Qed.
+Print Assumptions C16_session_late_join_fq.
+
+(* more generally: ANY genuine in-band packets of the object (source or repair symbols, any order, any duplication)
+   before the FDT packet *)
+Theorem C16_session_late_join_general_fq : forall E parse_fdt cfg oti content enc toi md5 now pf id foti d inst pre pkts,
+  let L := lenN_ content in
+  fq_scheme_ok oti L -> fq_blocks_ok oti L -> toi <> 0 ->
+  fdt_pkt_ok pf id foti d -> parse_fdt d = Some inst -> fdt_live cfg inst pf now ->
+  fdt_entry_for (fi_files inst) (fi_oti inst) toi oti L md5 ->
+  writer_accepts E toi -> writes_succeed E toi -> md5_good E content md5 ->
+  fq_oracle_sound E oti content enc toi -> fq_oracle_complete E oti content enc toi ->
+  L <= cf_max_cache cfg -> nb_blocks_of oti L <= 4097 ->
+  Forall (fun p => a_toi p = toi) (pre ++ pkts) ->
+  Forall (fun p => fq_genuine_pkt oti content enc p = true) (pre ++ pkts) ->
+  Forall (fun p => fq_sized_pkt oti p = true) (pre ++ pkts) ->
+  Forall (inband oti L) pre ->
+  fq_close_flag_ok oti L pkts ->
+  fq_recoverable oti L pkts = true ->
+  let '(_, r, c) := recv_run E parse_fdt cfg recv0 (map (fun p => RvPush p now) (pre ++ pf :: pkts)) ctx0 in
+  session_delivered cfg inst content toi r c.
+Proof. exact fq_session_late_join_general. Qed.
+Print Assumptions C16_session_late_join_general_fq.
+
+Example C16_session_example_fq :
+  forallb (fun j => match sess_env env_sys (txr_parse exq_oti 5) (tx_cfg true false)
+                               (skipn j (map (with_fti_of exq_oti 5) exq_pkts) ++ tx_fdt None :: exq_pkts) with
+                    | (_, [], [7], [], l) => list_eqb (fun a b => match a, b with
+                                                                 | EvWrite _ x _, EvWrite _ y _ => eqb_bytes x y
+                                                                 | EvBuilder _ _, EvBuilder _ _ | EvOpen _ _, EvOpen _ _
+                                                                 | EvComplete _, EvComplete _ => true
+                                                                 | _, _ => false end) l delivered_log
+                    | _ => false end) [0; 1; 2; 3; 4; 5; 6]%nat = true.
+Proof. vm_compute. reflexivity. Qed.
+
+Example C16_session_example_fq_by_theorem : forall j : nat,
+  let '(_, r, c) := recv_run env_sys (txr_parse exq_oti 5) (tx_cfg true false) recv0
+                             (map (fun p => RvPush p 100%Z)
+                                  (skipn j (map (with_fti_of exq_oti 5) exq_pkts) ++ tx_fdt None :: exq_pkts)) ctx0 in
+  session_delivered (tx_cfg true false) (txr_inst exq_oti 5) exr_content 7 r c.
+Proof. exact exq_session_late_join_by_theorem. Qed.
+
+(* ---------------- SEVERAL carouselled objects; the FDT packet ANYWHERE in the stream ----------------
+   Proved ONCE over the object-level interface of C02_session_via_interface (SessIface, both halves: "attached and
+   receiving" SP with the hypotheses I_, "decoding before the FDT" PS with the hypotheses J_) + I_fdtid of C02_session_multi_fdt_via_interface:
+   section LateIface of Proofs/C16Multi.v.  The stream [evs] is ANY interleaving of
+   - FDT packets, each a good copy of the one instance (FOk = fdt_copy: fdt_pkt_ok for the same id / document and not
+     expired on arrival), at least one; a later copy is ignored (receive-once) or becomes the new head of
+     rv_fdt_current and is offered again to every object (attach_latest_fdt_to_objects: no effect on an attached object);
+   - packets of the object [toi]: before the first FDT packet in the form pktpre (in-band FTI), genuine afterwards; a
+     close-object flag only once the object is covered with it;
+   - packets of other non-zero TOIs: ARBITRARY (isolation, C02_isolation);
+   in the end the symbols cover the object (inductive form WFm, unfolded below).  Conclusion MDone = multi_delivered
+   (C02_multi_delivered_statement).  The instances for No-Code, Reed-Solomon and RaptorQ / Raptor follow. *)
+Theorem C16_late_join_via_interface :
+  forall (E : env) (parse_fdt : list N -> option fdtinst) (cfg : rconfig) (content : list N) (toi : N) (now : Z)
+         (id : N) (inst : fdtinst) (f : fdtfile),
+  find (fun f0 => ff_toi f0 =? toi) (fi_files inst) = Some f ->
+  forall (SP : objrecv -> ObjRecv.ctx -> Prop) (LV : list (N * N) -> objrecv -> Prop) (gen : apkt -> Prop)
+         (pid : apkt -> N * N) (cov : list (N * N) -> Prop),
+  (forall o c, SP o c -> r_state o = Receiving) ->
+  (forall o c, SP o c -> r_writer o = Some (toi, 0%nat, WOpened)) ->
+  (forall o c p, SP o c -> r_nocache (fst (or_push E p o c)) = r_nocache o) ->
+  (forall o c seen p, SP o c -> LV seen o -> gen p -> (a_close_obj p = true -> cov (pid p :: seen)) ->
+     let (o2, c2) := or_push E p o c in
+     SP o2 c2 /\ LV (pid p :: seen) o2 \/ r_state o2 = Completed /\ C02Full.ShapeDone content (toi, 0%nat) toi c2) ->
+  (forall o c seen, SP o c -> LV seen o -> cov seen -> False) ->
+  (forall fid c, C02Session.Blank c ->
+     exists o0 c0, or_attach E fid (fi_files inst) (fi_oti inst) (or_new toi (cf_max_cache cfg)) c = (true, o0, c0)
+                   /\ SP o0 c0 /\ LV [] o0 /\ r_nocache o0 = ff_nocache f) ->
+  (forall o c, SP o c -> r_fdt_id o <> None) ->
+  forall (PS : objrecv -> Prop) (pktpre : apkt -> Prop),
+  (forall o, PS o -> r_state o = Receiving) ->
+  (forall p, pktpre p -> a_toi p = toi) ->
+  (forall c p, pktpre p -> exists o1, or_push E p (or_new toi (cf_max_cache cfg)) c = (o1, c) /\ PS o1 /\ LV [pid p] o1) ->
+  (forall o c seen p, PS o -> LV seen o -> pktpre p ->
+     exists o1, or_push E p o c = (o1, c) /\ PS o1 /\ LV (pid p :: seen) o1) ->
+  (forall fid o c seen, PS o -> LV seen o -> C02Session.Blank c ->
+     exists o' c', or_attach E fid (fi_files inst) (fi_oti inst) o c = (true, o', c') /\ r_nocache o' = ff_nocache f
+                   /\ (SP o' c' /\ LV seen o' \/ r_state o' = Completed /\ C02Full.ShapeDone content (toi, 0%nat) toi c')) ->
+  forall (foti : roti) (d : list N), parse_fdt d = Some inst ->
+  forall evs, WFm cfg toi now id inst gen pid cov pktpre foti d false [] evs ->
+  let '(_, r, c) := recv_run E parse_fdt cfg recv0 (map (fun p => RvPush p now) evs) ctx0 in
+  RI r c /\ EDisj r /\ MDone cfg content toi f r c.
+Proof. exact late_multi_wf. Qed.
+Print Assumptions C16_late_join_via_interface.
+
+(* WFm ph seen evs, given whether an FDT instance has arrived (ph) and the symbols of the object received so far *)
+Theorem C16_multi_wf_statement : forall cfg toi now id inst gen pid cov pktpre foti d ph seen p rest,
+  (WFm cfg toi now id inst gen pid cov pktpre foti d ph seen [] <-> ph = true /\ cov seen)
+  /\ (WFm cfg toi now id inst gen pid cov pktpre foti d ph seen (p :: rest) <->
+      if a_toi p =? 0 then FOk cfg now id inst foti d p /\ WFm cfg toi now id inst gen pid cov pktpre foti d true seen rest
+      else if a_toi p =? toi
+           then (if ph then gen p else pktpre p) /\ (a_close_obj p = true -> cov (pid p :: seen))
+                /\ WFm cfg toi now id inst gen pid cov pktpre foti d ph (pid p :: seen) rest
+           else WFm cfg toi now id inst gen pid cov pktpre foti d ph seen rest)
+  /\ (FOk cfg now id inst foti d p <-> fdt_pkt_ok p id foti d /\ fdt_live cfg inst p now).
+Proof. exact multi_wf_statement. Qed.
+Print Assumptions C16_multi_wf_statement.
+
+(* ONE object among other traffic, the FDT instance anywhere (any number of copies, at least one), every packet of the
+   object in-band (EXT_FTI = (oti, L), no EXT_CENC, no close-object flag: fit to arrive before as well as after the
+   instance); [filter ... evs] = the packets of the object in their order of arrival; nothing is assumed of the packets
+   of the other non-zero TOIs *)
+Theorem C16_nocode_object_late_among_other_traffic : forall E parse_fdt cfg oti content toi md5 now id foti d inst evs,
+  let L := lenN_ content in
+  nocode_ok oti L -> toi <> 0 -> parse_fdt d = Some inst ->
+  fdt_entry_for (fi_files inst) (fi_oti inst) toi oti L md5 ->
+  writer_accepts E toi -> writes_succeed E toi -> md5_good E content md5 ->
+  L <= cf_max_cache cfg -> nb_blocks_of oti L <= 4097 ->
+  Forall (fun p => a_toi p = 0 -> fdt_copy cfg inst now id foti d p) evs ->
+  (exists p, In p evs /\ a_toi p = 0) ->
+  let mine := filter (fun p => a_toi p =? toi) evs in
+  Forall (fun p => genuine_pkt oti content p = true) mine ->
+  Forall (inband oti L) mine ->
+  recoverable oti L mine = true ->
+  let '(_, r, c) := recv_run E parse_fdt cfg recv0 (map (fun p => RvPush p now) evs) ctx0 in
+  multi_delivered cfg inst content toi r c.
+Proof. exact nocode_late_among_others_delivers. Qed.
+Print Assumptions C16_nocode_object_late_among_other_traffic.
+
+Theorem C16_rs_object_late_among_other_traffic : forall E parse_fdt cfg oti content rep toi md5 now id foti d inst evs,
+  let L := lenN_ content in
+  rs_scheme_ok oti L -> rs_blocks_ok oti L -> toi <> 0 -> parse_fdt d = Some inst ->
+  fdt_entry_for (fi_files inst) (fi_oti inst) toi oti L md5 ->
+  writer_accepts E toi -> writes_succeed E toi -> md5_good E content md5 ->
+  rs_oracle_mds E oti content rep toi ->
+  rs_mem_need oti L <= cf_max_cache cfg -> nb_blocks_of oti L <= 4097 ->
+  Forall (fun p => a_toi p = 0 -> fdt_copy cfg inst now id foti d p) evs ->
+  (exists p, In p evs /\ a_toi p = 0) ->
+  let mine := filter (fun p => a_toi p =? toi) evs in
+  Forall (fun p => rs_genuine_pkt oti content rep p = true) mine ->
+  Forall (inband oti L) mine ->
+  rs_recoverable oti L mine = true ->
+  let '(_, r, c) := recv_run E parse_fdt cfg recv0 (map (fun p => RvPush p now) evs) ctx0 in
+  multi_delivered cfg inst content toi r c.
+Proof. exact rs_late_among_others_delivers. Qed.
+Print Assumptions C16_rs_object_late_among_other_traffic.
+
+Theorem C16_fq_object_late_among_other_traffic : forall E parse_fdt cfg oti content enc toi md5 now id foti d inst evs,
+  let L := lenN_ content in
+  fq_scheme_ok oti L -> fq_blocks_ok oti L -> toi <> 0 -> parse_fdt d = Some inst ->
+  fdt_entry_for (fi_files inst) (fi_oti inst) toi oti L md5 ->
+  writer_accepts E toi -> writes_succeed E toi -> md5_good E content md5 ->
+  fq_oracle_sound E oti content enc toi -> fq_oracle_complete E oti content enc toi ->
+  L <= cf_max_cache cfg -> nb_blocks_of oti L <= 4097 ->
+  Forall (fun p => a_toi p = 0 -> fdt_copy cfg inst now id foti d p) evs ->
+  (exists p, In p evs /\ a_toi p = 0) ->
+  let mine := filter (fun p => a_toi p =? toi) evs in
+  Forall (fun p => fq_genuine_pkt oti content enc p = true) mine ->
+  Forall (fun p => fq_sized_pkt oti p = true) mine ->
+  Forall (inband oti L) mine ->
+  fq_recoverable oti L mine = true ->
+  let '(_, r, c) := recv_run E parse_fdt cfg recv0 (map (fun p => RvPush p now) evs) ctx0 in
+  multi_delivered cfg inst content toi r c.
+Proof. exact fq_late_among_others_delivers. Qed.
+Print Assumptions C16_fq_object_late_among_other_traffic.
+
+(* ---------------- a carousel session with objects t1 .. tm (No-Code) listed by ONE FDT instance ----------------
+   [objs]: distinct non-zero TOIs, each with the premises of the single-object theorem and [no_pkts o] = the packets of
+   ONE transfer of the object, all with in-band FTI, no close-object flag (car_obj_ok, unfolded below).
+   A cycle of the whole stream = an interleaving (Merge, C02_multi_statements) of the FDT packet pf and one transfer of
+   each object (is_cycle).  The receiver joins at ANY packet boundary j of a cycle c1 - in the middle of an object's
+   transfer, before or after the FDT packet - receives the rest of c1 and one whole further cycle c2 (c2 may interleave
+   differently): EVERY object is delivered (multi_delivered, C02_multi_delivered_statement). *)
+Theorem C16_multi_late_join : forall E parse_fdt cfg now pf id foti d inst objs,
+  fdt_pkt_ok pf id foti d -> parse_fdt d = Some inst -> fdt_live cfg inst pf now ->
+  NoDup (map no_toi objs) -> Forall (car_obj_ok E cfg inst) objs ->
+  forall c1 c2 (j : nat), is_cycle pf objs c1 -> is_cycle pf objs c2 ->
+  let '(_, r, c) := recv_run E parse_fdt cfg recv0 (map (fun p => RvPush p now) (skipn j c1 ++ c2)) ctx0 in
+  Forall (fun o => multi_delivered cfg inst (no_content o) (no_toi o) r c) objs.
+Proof. exact nocode_multi_late_join. Qed.
+Print Assumptions C16_multi_late_join.
+
+(* the variant: what was caught of the first cycle holds NO FDT packet, so packets of the objects arrive BEFORE the FDT
+   instance (decoded from their in-band FTI, without writer; the FDT packet of the next cycle opens the writers and
+   flushes the completed blocks) - for the suffix of a cycle, and for ANY FDT-less prefix of transfer packets (any order,
+   any duplication, what is left of any number of earlier cycles, arbitrary packets of unlisted non-zero TOIs) *)
+Theorem C16_multi_late_join_after_the_fdt_packet : forall E parse_fdt cfg now pf id foti d inst objs,
+  fdt_pkt_ok pf id foti d -> parse_fdt d = Some inst -> fdt_live cfg inst pf now ->
+  NoDup (map no_toi objs) -> Forall (car_obj_ok E cfg inst) objs ->
+  forall c1 c2 (j : nat), is_cycle pf objs c1 -> is_cycle pf objs c2 ->
+  Forall (fun p => a_toi p <> 0) (skipn j c1) ->
+  let '(_, r, c) := recv_run E parse_fdt cfg recv0 (map (fun p => RvPush p now) (skipn j c1 ++ c2)) ctx0 in
+  Forall (fun o => multi_delivered cfg inst (no_content o) (no_toi o) r c) objs.
+Proof. exact nocode_multi_join_after_fdt. Qed.
+Print Assumptions C16_multi_late_join_after_the_fdt_packet.
+
+Theorem C16_multi_objects_before_the_fdt : forall E parse_fdt cfg now pf id foti d inst objs,
+  fdt_pkt_ok pf id foti d -> parse_fdt d = Some inst -> fdt_live cfg inst pf now ->
+  NoDup (map no_toi objs) -> Forall (car_obj_ok E cfg inst) objs ->
+  forall pre cyc,
+  Forall (fun p => a_toi p <> 0 /\ forall o, In o objs -> a_toi p = no_toi o -> In p (no_pkts o)) pre ->
+  is_cycle pf objs cyc ->
+  let '(_, r, c) := recv_run E parse_fdt cfg recv0 (map (fun p => RvPush p now) (pre ++ cyc)) ctx0 in
+  Forall (fun o => multi_delivered cfg inst (no_content o) (no_toi o) r c) objs.
+Proof. exact nocode_multi_join_before_fdt. Qed.
+Print Assumptions C16_multi_objects_before_the_fdt.
+
+(* the general form: ANY stream of carousel packets (of_carousel: FDT packets are good copies of the instance - possibly
+   different packets -, a packet with the TOI of a listed object is a packet of its transfer, other non-zero TOIs are
+   arbitrary) that holds at least one FDT packet and one whole transfer of every object, in ANY order *)
+Theorem C16_multi_stream_delivers : forall E parse_fdt cfg now id foti d inst objs evs,
+  parse_fdt d = Some inst -> Forall (car_obj_ok E cfg inst) objs ->
+  Forall (of_carousel cfg inst now id foti d objs) evs ->
+  (exists p, In p evs /\ a_toi p = 0) ->
+  (forall o, In o objs -> incl (no_pkts o) evs) ->
+  let '(_, r, c) := recv_run E parse_fdt cfg recv0 (map (fun p => RvPush p now) evs) ctx0 in
+  Forall (fun o => multi_delivered cfg inst (no_content o) (no_toi o) r c) objs.
+Proof. exact nocode_multi_stream_delivers. Qed.
+Print Assumptions C16_multi_stream_delivers.
+
+(* "within two further full cycles", in the property's own words: three consecutive cycles c1 c2 c3 of the stream, the
+   receiver starts at ANY point j inside c1: fed the rest of c1, then c2, then c3, it has delivered every object by the
+   end - and already by the end of c2 *)
+Theorem C16_multi_within_two_further_cycles : forall E parse_fdt cfg now pf id foti d inst objs,
+  fdt_pkt_ok pf id foti d -> parse_fdt d = Some inst -> fdt_live cfg inst pf now ->
+  NoDup (map no_toi objs) -> Forall (car_obj_ok E cfg inst) objs ->
+  forall c1 c2 c3 (j : nat), is_cycle pf objs c1 -> is_cycle pf objs c2 -> is_cycle pf objs c3 ->
+  (let '(_, r, c) := recv_run E parse_fdt cfg recv0 (map (fun p => RvPush p now) (skipn j c1 ++ c2)) ctx0 in
+   Forall (fun o => multi_delivered cfg inst (no_content o) (no_toi o) r c) objs)
+  /\ (let '(_, r, c) := recv_run E parse_fdt cfg recv0 (map (fun p => RvPush p now) (skipn j c1 ++ c2 ++ c3)) ctx0 in
+      Forall (fun o => multi_delivered cfg inst (no_content o) (no_toi o) r c) objs).
+Proof. exact nocode_multi_within_two_cycles. Qed.
+Print Assumptions C16_multi_within_two_further_cycles.
+
+(* the vocabulary, unfolded once *)
+Theorem C16_multi_statements :
+  (forall E cfg inst o, car_obj_ok E cfg inst o <->
+     let L := lenN_ (no_content o) in
+     nocode_ok (no_oti o) L /\ no_toi o <> 0
+     /\ fdt_entry_for (fi_files inst) (fi_oti inst) (no_toi o) (no_oti o) L (no_md5 o)
+     /\ writer_accepts E (no_toi o) /\ writes_succeed E (no_toi o) /\ md5_good E (no_content o) (no_md5 o)
+     /\ L <= cf_max_cache cfg /\ nb_blocks_of (no_oti o) L <= 4097
+     /\ Forall (fun p => a_toi p = no_toi o) (no_pkts o)
+     /\ Forall (fun p => genuine_pkt (no_oti o) (no_content o) p = true) (no_pkts o)
+     /\ Forall (inband (no_oti o) L) (no_pkts o)
+     /\ recoverable (no_oti o) L (no_pkts o) = true)
+  /\ (forall oti L p, inband oti L p <-> a_oti p = Some (oti, L) /\ a_cenc p = None /\ a_close_obj p = false)
+  /\ (forall cfg inst now id foti d p, fdt_copy cfg inst now id foti d p <-> fdt_pkt_ok p id foti d /\ fdt_live cfg inst p now)
+  /\ (forall cfg inst now id foti d objs p, of_carousel cfg inst now id foti d objs p <->
+        (a_toi p = 0 -> fdt_copy cfg inst now id foti d p)
+        /\ forall o, In o objs -> a_toi p = no_toi o -> In p (no_pkts o))
+  /\ (forall pf objs cyc, is_cycle pf objs cyc <-> Merge ([pf] :: map no_pkts objs) cyc)
+  (* what a cycle is made of *)
+  /\ (forall ls pkts, Merge ls pkts -> forall p, In p pkts <-> exists l, In l ls /\ In p l).
+Proof. exact multi_late_statements. Qed.
+Print Assumptions C16_multi_statements.
+
+(* non-vacuity: TOI 7 (5 bytes, symbols (0,0) (0,1) (1,0)) and TOI 9 (3 bytes, symbols (0,0) (0,1)), EXT_FTI on every
+   object packet, one instance listing both; cycle = FDT 7(0,0) 9(0,0) 7(0,1) 9(0,1) 7(1,0).  For EVERY join offset
+   0 .. 7 (offset 4 = in the middle of the transfer of the second object, TOI 9, after the FDT packet of that cycle) both
+   objects end in rv_completed, rv_objects and rv_error are empty and each first writer got open, its bytes, complete -
+   through recv_run, with receive-once; joining at 4 and stopping after the next FDT packet: both objects present, their
+   writers just opened; without receive-once the first writers are served all the same; and by the theorem *)
+Example C16_two_objects_late_join :
+  cc_cycle = [tx_fdt None; with_fti (src_pkt 7 0 0 false [1; 2]); with_fti_of ex_oti 3 (src_pkt 9 0 0 false [10; 20]);
+              with_fti (src_pkt 7 0 1 false [3; 4]); with_fti_of ex_oti 3 (src_pkt 9 0 1 false [30]); with_fti (src_pkt 7 1 0 false [5])]
+  /\ forallb (fun j => match sess tm_parse (tx_cfg true false) (skipn j cc_cycle ++ cc_cycle) with
+                       | (_, [], comp, [], l) =>
+                         existsb (N.eqb 7) comp && existsb (N.eqb 9) comp
+                         && completed (calls_of (7, 0%nat) l) && eqb_bytes (written (calls_of (7, 0%nat) l)) ex_content
+                         && completed (calls_of (9, 0%nat) l) && eqb_bytes (written (calls_of (9, 0%nat) l)) tm_content9
+                         && negb (failed (calls_of (7, 0%nat) l)) && negb (failed (calls_of (9, 0%nat) l))
+                       | _ => false end) [0; 1; 2; 3; 4; 5; 6; 7]%nat = true
+  /\ sess tm_parse (tx_cfg true false) (skipn 4 cc_cycle ++ firstn 1 cc_cycle)
+     = ([POk; POk; POk], [9; 7], [], [], [EvBuilder 9 WStore; EvOpen (9, 0%nat) true; EvBuilder 7 WStore; EvOpen (7, 0%nat) true])
+  /\ forallb (fun j => match sess tm_parse (tx_cfg false false) (skipn j cc_cycle ++ cc_cycle) with
+                       | (_, _, _, [], l) =>
+                         completed (calls_of (7, 0%nat) l) && eqb_bytes (written (calls_of (7, 0%nat) l)) ex_content
+                         && completed (calls_of (9, 0%nat) l) && eqb_bytes (written (calls_of (9, 0%nat) l)) tm_content9
+                         && negb (failed (calls_of (7, 0%nat) l)) && negb (failed (calls_of (9, 0%nat) l))
+                       | _ => false end) [0; 1; 2; 3; 4; 5; 6; 7]%nat = true.
+Proof. vm_compute. repeat split. Qed.
+
+Example C16_two_objects_late_join_by_theorem : forall j : nat,
+  let '(_, r, c) := recv_run env_ok tm_parse (tx_cfg true false) recv0
+                             (map (fun p => RvPush p 100%Z) (skipn j cc_cycle ++ cc_cycle)) ctx0 in
+  multi_delivered (tx_cfg true false) tm_inst ex_content 7 r c
+  /\ multi_delivered (tx_cfg true false) tm_inst tm_content9 9 r c.
+Proof. exact cc_late_join_by_theorem. Qed.
+(* ===== end block: C16Multi ===== *)
+
+(* ===== block: C02Cache ===== *)
+From FluteV Require Import Proofs.C02Cache.
+(* ---------------- late join when the FEC OTI is ONLY in the FDT (Proofs/C02Cache.v) ----------------
+   The setting of C16_session_late_join_nocode, but the carousel packets carry NO EXT_FTI (Oti::inband_fti off; the wire
+   bridge of the model emits them so): the receiver joins at ANY packet offset j of a carousel transfer of the object; what
+   is left of the cycle cannot be decoded yet and is CACHED by the object receiver; the FDT packet attaches the entry and the
+   cache is replayed (in arrival order, D43); one whole further transfer follows (carousel or last, with or without EXT_FTI, any
+   window).  One premise replaces "EXT_FTI on the early packets": the cached packets fit the cache, cache_fits
+   (cf_max_cache rcfg) 0 (the suffix) - the sum of pkt.data.len() of the packets cached so far is below
+   max_size_allocated whenever a further packet is cached (C02_cache_statements; C02_cache_bound_refuted shows the object
+   abandoned otherwise).  It holds for every suffix as soon as it holds for the whole cycle (C16_cache_fits_any_suffix).
+   Conclusion: session_meta_delivered, as C16_session_late_join_nocode. *)
+Theorem C16_session_cached_late_join_nocode :
+  forall rep raptor_src cfg complete now m content E rcfg nowr id sct,
+  sender_ok cfg now m content -> doc_fits cfg complete now m -> receiver_ok E rcfg nowr sct cfg now m content ->
+  forall (window1 : nat) (debug1 : bool) (j window : nat) (closable debug fti : bool),
+  (1 <= window1)%nat -> (1 <= window)%nat ->
+  cache_fits (cf_max_cache rcfg) 0 (skipn j (obj_wire rep raptor_src cfg m window1 false debug1 content false)) = true ->
+  let '(_, r, cx) := recv_run E fdt_oracle rcfg recv0
+                       (map (fun p => RvPush p nowr)
+                            (skipn j (obj_wire rep raptor_src cfg m window1 false debug1 content false)
+                             ++ sess_fdt_pkt cfg complete now m id sct
+                                :: obj_wire rep raptor_src cfg m window closable debug content fti)) ctx0 in
+  session_meta_delivered cfg complete now m content rcfg r cx.
+Proof. exact session_cached_late_join. Qed.
+Print Assumptions C16_session_cached_late_join_nocode.
+
+(* more generally: ANY genuine packets of the object without EXT_FTI, EXT_CENC and close-object flag (any order, any
+   duplication, what is left of any number of earlier cycles) that fit the cache, before the FDT packet *)
+Theorem C16_session_cached_late_join_general_nocode :
+  forall rep raptor_src cfg complete now m content E rcfg nowr id sct,
+  sender_ok cfg now m content -> doc_fits cfg complete now m -> receiver_ok E rcfg nowr sct cfg now m content ->
+  forall (window : nat) (closable debug fti : bool) (pre : list apkt), (1 <= window)%nat ->
+  Forall (fun p => a_toi p = m_toi m) pre ->
+  Forall (fun p => genuine_pkt (obj_roti cfg m) content p = true) pre ->
+  Forall (fun p => a_oti p = None /\ a_cenc p = None /\ a_close_obj p = false) pre ->
+  cache_fits (cf_max_cache rcfg) 0 pre = true ->
+  let '(_, r, cx) := recv_run E fdt_oracle rcfg recv0
+                       (map (fun p => RvPush p nowr)
+                            (pre ++ sess_fdt_pkt cfg complete now m id sct
+                                    :: obj_wire rep raptor_src cfg m window closable debug content fti)) ctx0 in
+  session_meta_delivered cfg complete now m content rcfg r cx.
+Proof. exact session_cached_late_join_general. Qed.
+Print Assumptions C16_session_cached_late_join_general_nocode.
+
+Theorem C16_cache_fits_any_suffix : forall max (j : nat) l,
+  cache_fits max 0 l = true -> cache_fits max 0 (skipn j l) = true.
+Proof. exact cache_fits_skipn. Qed.
+Print Assumptions C16_cache_fits_any_suffix.
+
+(* non-vacuity: the session of C16_session_example (real XML bytes through the oracle) as a carousel WITHOUT EXT_FTI, cycle
+   (0,0) (1,0) (0,1): for every join offset the packets are accepted, TOI 7 ends in rv_completed and the log is the
+   delivery - by computation and by the theorem *)
+Example C16_session_cached_example :
+  forallb (fun j => match exs_run (skipn j (exs_wire false) ++ exs_pf :: exs_wire false) with
+                    | (_, [], [7], [], l) => list_eqb (fun a b => match a, b with
+                                                                 | EvWrite _ x _, EvWrite _ y _ => eqb_bytes x y
+                                                                 | EvBuilder _ _, EvBuilder _ _ | EvOpen _ _, EvOpen _ _
+                                                                 | EvComplete _, EvComplete _ => true
+                                                                 | _, _ => false end) l exs_log
+                    | _ => false end) [0; 1; 2; 3; 4]%nat = true
+  /\ forallb (fun p => match a_oti p with None => true | Some _ => false end) (exs_wire false) = true.
+Proof. exact exs_cached_late_computed. Qed.
+
+Example C16_session_cached_example_by_theorem : forall j closable fti,
+  let '(_, r, cx) := recv_run exs_env fdt_oracle exs_rcfg recv0
+                       (map (fun p => RvPush p exs_nowr)
+                            (skipn j (obj_wire no_rep no_rsrc exs_cfg exs_m 2 false true ex_content false)
+                             ++ sess_fdt_pkt exs_cfg false exs_now exs_m 1 exs_sct
+                                :: obj_wire no_rep no_rsrc exs_cfg exs_m 2 closable true ex_content fti)) ctx0 in
+  session_meta_delivered exs_cfg false exs_now exs_m ex_content exs_rcfg r cx.
+Proof. exact exs_cached_late_by_theorem. Qed.
+(* ===== end block: C02Cache ===== *)
